@@ -557,6 +557,7 @@ func (w *Worker) runPath(h *Harness, prefix []dec) (res pathResult) {
 	i.depth = 0
 	i.clock = 0
 	i.uuidSeq = 0
+	i.jsonRaws = nil
 	i.tr.on = true
 	i.pathDeadline = time.Now().Add(w.ex.pathTimeout)
 	w.solver.BeginPath()
@@ -581,7 +582,7 @@ func (w *Worker) runPath(h *Harness, prefix []dec) (res pathResult) {
 			if r.kind == "budget" {
 				res.kind = "unwind"
 			}
-			if res.kind == "unwind" && h.HangIsViolation && !strings.Contains(r.msg, "per-path time limit") {
+			if res.kind == "unwind" && h.HangIsViolation {
 				if m, v := i.model(); v == Sat {
 					res.kind = "fail"
 					res.fail = &Failure{Harness: h.ID, Msg: "no termination within the bound: " + r.msg, Inputs: m, Kind: "hang"}
